@@ -878,7 +878,6 @@ class ExcelFormula:
             """
             if exc:
                 capture_error_state(exc, msg)
-                assert 1 == len(error_messages)
             trace, msg = error_messages.pop()
             fmt_str = "{0}Eval: {1}" if msg is None else "{0}Eval: {1}\n{2}"
             error_msg = fmt_str.format(trace, python_code, msg)
@@ -927,26 +926,34 @@ class ExcelFormula:
                         msg_fmt.format(f.upper()) +
                         func_status_msg(f)[1] for f in sorted(missing))
 
+            # evaluations nest: messages queued before this one started
+            # belong to the formulas which are evaluating this one
+            pending = len(error_messages)
+
             try:
                 with in_array_formula_context(cse_array_address):
                     ret_val = in_array_formula_context.fit_to_range(
                         excel_formula.compiled_lambda())
 
             except NameError:
+                del error_messages[pending:]
                 error_logger('error', excel_formula.python_code,
                              msg=excel_formula.msg, exc=UnknownFunction)
 
             except RecursionError as exc:
+                del error_messages[pending:]
                 raise RecursionError('Do you need to use cycles=True ?') from exc
 
             except Exception:
+                del error_messages[pending:]
                 address = f"{excel_formula.cell.address}: " if excel_formula.cell else ""
                 error_logger('error', f"{address}{excel_formula.python_code}",
                              exc=FormulaEvalError)
 
-            if error_messages:
+            if len(error_messages) > pending:
                 level = 'warning' if ret_val in ERROR_CODES else 'info'
                 error_logger(level, excel_formula.python_code)
+                del error_messages[pending:]
 
             return ret_val if ret_val not in (None, EMPTY) else 0
 
